@@ -140,7 +140,7 @@ class Leaf:
         return out
 
     def nontrivial(self):
-        return any(not isinstance(s, ast.Pass) for s in self.stmts)
+        return any(not isinstance(s, (ast.Pass, ast.Continue)) for s in self.stmts)
 
 
 def dispatch(stmts, ctx, top_level_skip=False, _path=None, _depth=0):
@@ -169,6 +169,9 @@ def dispatch(stmts, ctx, top_level_skip=False, _path=None, _depth=0):
             continue
         if _depth == 0 and top_level_skip:
             continue
+        if isinstance(st, (ast.Assign, ast.Expr)) and any(
+                isinstance(later, ast.If) and decide(later.test, ctx) is not None for later in stmts[i + 1:]):
+            continue        # a computation shared by the arms of a decidable chain that follows
         return Leaf(stmts[i:], path)
     return None
 
